@@ -61,7 +61,7 @@ QUICK_CONFIGS = ["default", "raise+error", "mixed+call"]
 def bounds(tier):
     return {"tier": tier, "events": len(Gl.EVENTS),
             "histories": "depth 2 under 3 configurations, depth 1 under all 12" if tier == "quick" else "depth 3 under 2 configurations, depth 2 under all 12",
-            "schedules": "all schedules with <= 1 preemption, 2 threads, line granularity, 14 harness pairs; fresh-process (lazy import) variant for 3 pairs" if tier == "quick"
+            "schedules": "all schedules with <= 1 preemption, 2 threads, line granularity, 14 harness pairs; <= 2 preemptions at function-entry granularity for 5 small operator-form harnesses (line granularity in thorough); fresh-process (lazy import) variant for 3 pairs" if tier == "quick"
             else "<= 2 preemptions for object-backend pairs, <= 1 otherwise, 2 and 3 threads; fresh-process variant for 6 pairs"}
 
 
@@ -82,15 +82,31 @@ def shards(tier):
             step = 2 if depth == 3 else 8
             for k in range(0, len(names), step):
                 out.append({"kind": "history", "config": c, "depth": depth, "first": names[k : k + step]})
+    hist, out = out, []
     for name in HARNESSES:
-        out.append({"kind": "schedule", "harness": name, "bound": harness_bound(name, tier), "fresh": False})
+        if name in BOUND2:
+            if tier == "quick" and name == "np2_eq_abs":
+                continue  # thorough only
+            if tier == "quick":
+                nsl = 8 if name.startswith("ak") else 1
+                for k in range(nsl):
+                    out.append({"kind": "schedule", "harness": name, "bound": 2, "fresh": False, "granularity": "entry", **({"slice": [k, nsl]} if nsl > 1 else {})})
+            else:
+                nsl = 16 if BOUND2[name] == "line" else 1
+                for k in range(nsl):
+                    out.append({"kind": "schedule", "harness": name, "bound": 2, "fresh": False, "granularity": BOUND2[name], "slice": [k, nsl]})
+        else:
+            out.append({"kind": "schedule", "harness": name, "bound": harness_bound(name, tier), "fresh": False})
     fresh = ["np2_add_shared", "obj2_add_shared", "ak2_scale_vs_Array"] + (["np_add_shared", "obj_add_shared", "ak_add_vs_Array"] if tier == "thorough" else [])
     for name in fresh:
         out.append({"kind": "schedule", "harness": name, "bound": 1, "fresh": True})
     if tier == "thorough":
         for name in ("np_three_threads", "obj_three_threads"):
             out.append({"kind": "schedule", "harness": name, "bound": 1, "fresh": False})
-    return out
+    # longest shards first (the schedule explorations), then the history fork trees
+    cost = {"ak_add_shared": 9, "obj_inplace_shared": 8, "np_sum": 8, "ak_add_vs_Array": 7, "ak_record_vs_array": 7, "ak2_operators": 6}
+    out.sort(key=lambda sh: -cost.get(sh["harness"], 5 if sh["fresh"] else 3))
+    return out + hist
 
 
 # ======================================================================================== (a) histories
@@ -101,6 +117,13 @@ def _diff(a, b):
             if k in ("awkward.behavior", "vector.behavior"):
                 sa, sb = set(a[k]), set(b[k])
                 out.append(f"{k}: +{len(sb - sa)} -{len(sa - sb)} entries")
+            elif k == "warnings.filters":
+                fa, fb = list(a[k][1]), list(b[k][1])
+                added = [f for f in fb if f not in fa]
+                removed = [f for f in fa if f not in fb]
+                out.append(f"warnings.filters: added {added}, removed {removed}" + ("" if (added or removed) else " (the list object was replaced)"))
+            elif k == "numpy.geterrcall":
+                out.append("numpy.geterrcall changed")
             else:
                 out.append(f"{k}: {a[k]!r} -> {b[k]!r}")
     return "; ".join(out)
@@ -329,6 +352,36 @@ def _h_ak2_scale_vs_Array():
     return [lambda: a.scale(2.0), lambda: vector.Array([{"pt": 1.0, "phi": 0.5}]).x], [a]
 
 
+def _np2(seed):
+    return vector.array({"x": np.array([1.5, -0.625]) + seed, "y": np.array([0.75, 2.25])})
+
+
+def _h_np2_truediv():
+    a, b = _np2(0), _np2(1)
+    return [lambda: a / 2.0, lambda: b / 4.0], [a, b]
+
+
+def _h_np2_mul_neg():
+    a, b = _np2(0), vector.array({"pt": np.array([1.0, 2.0]), "phi": np.array([0.5, -2.0])})
+    return [lambda: a * 2.0, lambda: -b], [a, b]
+
+
+def _h_np2_eq_abs():
+    a, b = _np2(0), _np2(1)
+    return [lambda: a == b, lambda: (abs(b), b**2)], [a, b]
+
+
+def _h_obj2_operators():
+    a, b = vector.obj(x=1.5, y=0.75), vector.obj(pt=2.0, phi=-2.0)
+    return [lambda: a / 2.0, lambda: (-b, b * 3.0)], [a, b]
+
+
+def _h_ak2_operators():
+    a = vector.Array([[{"x": 1.5, "y": 0.75}], [], [{"x": -0.625, "y": 2.25}]])
+    b = vector.Array([[{"rho": 1.0, "phi": 0.5}], [{"rho": 2.0, "phi": -2.0}]])
+    return [lambda: a / 2.0, lambda: (b * 3.0, -b)], [a, b]
+
+
 def _h_np_three():
     a, b, c = _np4(0), _np4(1), _np4(2)
     return [lambda: a.add(b), lambda: c.add(b), lambda: b.unit()], [a, b, c]
@@ -344,11 +397,17 @@ HARNESSES = {
     "obj_add_shared": _h_obj_add_shared, "obj_boost": _h_obj_boost, "obj_inplace_shared": _h_obj_inplace_shared, "obj_rotations": _h_obj_rotations,
     "ak_add_shared": _h_ak_add_shared, "ak_add_vs_Array": _h_ak_add_vs_Array, "ak_zip_vs_op": _h_ak_zip_vs_op, "ak_record_vs_array": _h_ak_record_vs_array, "ak_np_cast": _h_ak_np_cast,
 }
+# harnesses explored with TWO preemptions (operator forms: the ufunc / behavior dispatch paths); small programs so that
+# the quadratic number of schedules stays affordable; the Awkward one at function-entry granularity
+BOUND2 = {"np2_truediv": "line", "np2_mul_neg": "line", "np2_eq_abs": "line", "obj2_operators": "line", "ak2_operators": "entry"}
+HARNESSES.update({"np2_truediv": _h_np2_truediv, "np2_mul_neg": _h_np2_mul_neg, "np2_eq_abs": _h_np2_eq_abs, "obj2_operators": _h_obj2_operators, "ak2_operators": _h_ak2_operators})
 EXTRA_HARNESSES = {"np_three_threads": _h_np_three, "obj_three_threads": _h_obj_three,
                    "np2_add_shared": _h_np2_add_shared, "obj2_add_shared": _h_obj2_add_shared, "ak2_scale_vs_Array": _h_ak2_scale_vs_Array}
 
 
 def harness_bound(name, tier):
+    if name in BOUND2:
+        return 2
     if tier == "thorough" and name.startswith("obj_"):
         return 2
     return 1
@@ -394,7 +453,7 @@ def run_schedule_shard(res: Result, shard, tier):
         res.evaluations += 1
         res.transitions += len(x.points)
         res.traces += 1
-        case = {"kind": "schedule", "harness": name, "choices": x.choices, "bound": bound}
+        case = {"kind": "schedule", "harness": name, "choices": x.choices, "bound": bound, "granularity": gran}
         npre = sum(1 for p, c in zip(x.points, x.choices) if p["still_enabled"] and c != 0)
         where = [x.points[i]["label"] for i, c in enumerate(x.choices) if c != 0 and x.points[i]["still_enabled"]]
         for t, e in enumerate(x.errors):
@@ -418,20 +477,21 @@ def run_schedule_shard(res: Result, shard, tier):
             res.nontrivial += 1
 
     # replay determinism: the default schedule twice must take identical decisions
+    gran = shard.get("granularity", "line")
     p1, c1 = mk()
-    e1 = sched.Execution(p1, []).run()
+    e1 = sched.Execution(p1, [], gran).run()
     p2, c2 = mk()
-    e2 = sched.Execution(p2, []).run()
+    e2 = sched.Execution(p2, [], gran).run()
     if [(p["running"], p["label"]) for p in e1.points] != [(p["running"], p["label"]) for p in e2.points]:
         raise RuntimeError(f"harness {name}: the default schedule is not reproducible (different scheduling points on two runs)")
-    stats = sched.explore(mk, bound, check)
-    res.counters[f"schedules_{name}"] = stats["executions"]
+    stats = sched.explore(mk, bound, check, granularity=gran, first_slice=tuple(shard["slice"]) if shard.get("slice") else None)
+    res.counters[f"schedules_{name}"] = res.counters.get(f"schedules_{name}", 0) + stats["executions"]
     res.counters["scheduling_points_max"] = max(res.counters.get("scheduling_points_max", 0), stats["points_max"])
     res.counters["preemption_bound_max"] = max(res.counters.get("preemption_bound_max", 0), bound)
     res.counters[f"distinct_outcomes_{name}"] = len(outcomes)
     if len(outcomes) > 1 and not res.violation_classes():
         raise RuntimeError(f"harness {name}: {len(outcomes)} distinct outcomes but no violation recorded")
-    res.sample({"kind": "schedule", "harness": name, "threads": len(make()[0]), "preemption_bound": bound, "schedules": stats["executions"], "scheduling_points": stats["points_max"], "distinct_outcomes": len(outcomes)})
+    res.sample({"kind": "schedule", "harness": name, "threads": len(make()[0]), "preemption_bound": bound, "granularity": gran, "schedules": stats["executions"], "scheduling_points": stats["points_max"], "distinct_outcomes": len(outcomes)})
 
 
 def run_schedule_fresh(res: Result, shard, make, name, bound):
@@ -524,10 +584,13 @@ def run_schedule_fresh(res: Result, shard, make, name, bound):
 
 def run_shard(shard, tier):
     res = Result()
+    t0 = time.time()
     if shard["kind"] == "history":
         run_history_shard(res, shard, tier)
+        res.counters["history_shard_wall_s_max"] = time.time() - t0
     else:
         run_schedule_shard(res, shard, tier)
+        res.counters[f"wall_s_{shard['harness']}{'_fresh' if shard['fresh'] else ''}_max"] = time.time() - t0
     return res
 
 
@@ -559,13 +622,36 @@ def replay(case):
                 hist = rec["history"]
                 res.violation(f"{clause}|{hist[-1]}|{case['config']}", f"[config {case['config']}] history {hist}: {msg}", case)
         return res
+    # schedules are replayed in a forked child so that a leaked global change cannot influence the second replay
+    r, w = os.pipe()
+    pid = os.fork()
+    if pid == 0:
+        os.close(r)
+        out = _replay_schedule(case)
+        os.write(w, json.dumps([[c, v["msg"]] for c, v in out.violation_classes().items()]).encode())
+        os._exit(0)
+    os.close(w)
+    with os.fdopen(r, "rb") as fh:
+        data = json.loads(fh.read() or b"[]")
+    os.waitpid(pid, 0)
+    for c, m in data:
+        res.violation(c, m, case)
+    return res
+
+
+def _replay_schedule(case):
+    res = Result()
     name = case["harness"]
     make = HARNESSES.get(name) or EXTRA_HARNESSES[name]
     ref = sequential_reference(make)
     programs, operands = make()
     before = [B.snapshot(o) for o in operands]
-    x = sched.Execution(programs, case["choices"]).run()
+    g0 = Gl.snapshot()
+    x = sched.Execution(programs, case["choices"], case.get("granularity", "line")).run()
     obs = tuple(observe(r) for r in x.results)
+    if Gl.snapshot() != g0:
+        res.violation(f"schedule_global_state|{name}", f"global state changed under schedule {case['choices']}: {_diff(g0, Gl.snapshot())}", case)
+        return res
     if any(e is not None for e in x.errors):
         res.violation(f"schedule_exception|{name}", f"threads raised {x.errors} under schedule {case['choices']}", case)
     elif obs != ref:
